@@ -519,7 +519,7 @@ func replayModel(cfg Config, c Case, q *big.Int, obligation string, model map[st
 	if sv, ok := model["__seed__"]; ok {
 		fmt.Sscan(sv, &seed)
 	}
-	ce, _ := symalg.NewEngine(symalg.Options{Q: q, Seed: seed, Concrete: modelBig(model)})
+	ce, _ := symalg.NewEngine(symalg.Options{Q: q, Seed: seed, Concrete: modelBig(model), ReplayWitness: true})
 	out := ce.Explore(c.ID, func(r *symalg.Run) { c.Sym(&SymEnv{R: r}) })
 	if o, ok := out.Obligations[obligation]; ok && o.Status == symalg.StViolated {
 		return true
